@@ -13,6 +13,8 @@
 //!   P  priority: fallback-prefix configurations vs the model (`drv_c05 prio`) and vs the rendered text,
 //!      the call being made from every template of the set (defining ones included), through includes,
 //!      through fallback-resolved names and from a one-off template redefining the name.
+//!   H  history: ok-add → rejected add (overrides / defines components and contains something invalid)
+//!      → registry unchanged (template call, render_str, render_component, get_component_definition).
 //!   N  captures nested 1–3 (4 thorough) deep — call bodies, set blocks, filter sections, bodies printed
 //!      twice around an include — around includes / calls / loops / blocks: text comes out where written.
 //!   X  a result / body kept in a variable (set, set_global, loop variable, argument, rest map) by a
@@ -878,6 +880,127 @@ fn boundary_stream(report: &mut Report) -> Option<(String, serde_json::Value)> {
     first
 }
 
+// ------------------------------------------------------------------ stream H: the registry after a rejected add
+
+/// everything one can observe of the component registry
+fn observe_registry(tera: &Tera) -> Vec<String> {
+    let mut out = Vec::new();
+    let show = |r: Result<String, tera::Error>| match r {
+        Ok(s) => format!("ok {s}"),
+        Err(e) => format!("err {}", if err_text(&e).contains("not") || e.to_string().contains("not") { "unknown-or-missing" } else { "other" }),
+    };
+    for name in ["K", "K2", "Only"] {
+        out.push(format!("render_str call {name}: {}", show(tera.render_str(&format!("[{{{{ <{name}/> }}}}]"), &Context::new(), false))));
+        out.push(format!("render_component {name}: {}", show(tera.render_component(name, &Context::new(), None, false))));
+        out.push(format!(
+            "get_component_definition {name}: {:?}",
+            tera.get_component_definition(name).map(|i| (i.args().iter().map(|a| (a.name().to_string(), a.default().map(|d| format!("{d}")))).collect::<Vec<_>>(), i.rest_param().map(|s| s.to_string())))
+        ));
+    }
+    for t in ["main.txt", "theme/page.txt"] {
+        out.push(format!("render {t}: {}", show(tera.render(t, &Context::new()))));
+    }
+    out
+}
+
+/// ok-add (a theme defines K) → REJECTED add (the batch overrides K and / or defines K2 and contains
+/// something invalid) → the registry is what it was: same text from a template, from render_str, from
+/// the API, same introspection; K2 stays unknown
+fn history_stream(report: &mut Report) -> Option<(String, serde_json::Value)> {
+    let overrides: Vec<(&str, Vec<(&str, &str)>)> = vec![
+        ("override K at higher priority", vec![("k_user.txt", "{% component K(a=2, ...more) %}user{{ a }}{% endcomponent K %}")]),
+        ("define new K2", vec![("k2.txt", "{% component K2(z) %}k2{% endcomponent K2 %}")]),
+        ("override K and define K2 in one template", vec![("both.txt", "{% component K() %}both{% endcomponent K %}{% component K2() %}k2{% endcomponent K2 %}")]),
+        ("replace the defining template by one that no longer defines K", vec![("theme/k.txt", "nothing here")]),
+        ("replace the defining template by a different K", vec![("theme/k.txt", "{% component K(b=9) %}changed{{ b }}{% endcomponent K %}")]),
+    ];
+    let invalids: Vec<(&str, Vec<(&str, &str)>)> = vec![
+        ("unknown filter in another template", vec![("bad.txt", "{{ 1 | nosuchfilter }}")]),
+        ("unknown component call", vec![("bad.txt", "{{ <Nope/> }}")]),
+        ("include of a missing template", vec![("bad.txt", "{% include \"missing.txt\" %}")]),
+        ("extends a missing parent", vec![("bad.txt", "{% extends \"missing.txt\" %}")]),
+        ("syntax error", vec![("bad.txt", "{% if %}")]),
+        ("unknown test", vec![("bad.txt", "{{ 1 is nosuchtest }}")]),
+        ("unknown function", vec![("bad.txt", "{{ nosuchfn() }}")]),
+        ("duplicate definition at equal priority", vec![("dup1.txt", "{% component D() %}1{% endcomponent D %}"), ("dup2.txt", "{% component D() %}2{% endcomponent D %}")]),
+        ("include cycle", vec![("c1.txt", "{% include \"c2.txt\" %}"), ("c2.txt", "{% include \"c1.txt\" %}")]),
+    ];
+    let mut first = None;
+    for (oname, ov) in &overrides {
+        for (iname, inv) in &invalids {
+            for order in 0..2 {
+                for single in [false, true] {
+                    let mut tera = new_tera();
+                    let _ = tera.set_fallback_prefixes(vec!["theme/".to_string()]);
+                    if let Err(e) = tera.add_raw_templates(vec![
+                        ("theme/k.txt", "{% component K(a=1) %}theme{{ a }}{% endcomponent K %}{% component Only() %}only{% endcomponent Only %}"),
+                        ("theme/page.txt", "p:{{ <K a={5}/> }}{{ <Only/> }}"),
+                        ("main.txt", "m:{{ <K/> }}"),
+                    ]) {
+                        return Some((format!("history: the first add fails: {e:?}"), serde_json::json!({"stream": "history"})));
+                    }
+                    let before = observe_registry(&tera);
+                    // the rejected add
+                    let mut batch: Vec<(String, String)> = ov.iter().map(|(n, t)| (n.to_string(), t.to_string())).collect();
+                    let mut bad: Vec<(String, String)> = inv.iter().map(|(n, t)| (n.to_string(), t.to_string())).collect();
+                    if single {
+                        // everything in ONE template added with add_raw_template (only when the invalid part is a reference)
+                        if inv.len() != 1 || ov.len() != 1 || *iname == "syntax error" || iname.starts_with("extends") {
+                            continue;
+                        }
+                        let name = batch[0].0.clone();
+                        let src = format!("{}{}", batch[0].1, bad[0].1);
+                        let r = catch(std::panic::AssertUnwindSafe(|| tera.add_raw_template(&name, &src)));
+                        if !matches!(r, Ok(Err(_))) {
+                            report.count("history.add-not-rejected");
+                            continue;
+                        }
+                    } else {
+                        if order == 1 {
+                            bad.extend(batch.drain(..));
+                            batch = bad;
+                        } else {
+                            batch.extend(bad);
+                        }
+                        let r = catch(std::panic::AssertUnwindSafe(|| tera.add_raw_templates(batch.clone())));
+                        if !matches!(r, Ok(Err(_))) {
+                            report.count("history.add-not-rejected");
+                            continue;
+                        }
+                    }
+                    report.count("history.rejected-adds");
+                    report.evaluations += 1;
+                    let after = observe_registry(&tera);
+                    report.oracle_checks += after.len() as u64;
+                    if after != before {
+                        report.oracle_failures += 1;
+                        if first.is_none() {
+                            let diff: Vec<String> = before.iter().zip(after.iter()).filter(|(a, b)| a != b).map(|(a, b)| format!("before `{a}` / after `{b}`")).collect();
+                            first = Some((
+                                format!("registry after a REJECTED add ({oname}; rejected for: {iname}; {}) differs from the one before: {}", if single { "one template, add_raw_template" } else { "batch, add_raw_templates" }, diff.join("; ")),
+                                serde_json::json!({"stream": "history", "override": oname, "invalid": iname, "single": single, "order": order}),
+                            ));
+                        }
+                    }
+                    // and a later valid add still sees the old registry
+                    if tera.add_raw_template("later.txt", "l:{{ <K/> }}").is_ok() {
+                        report.oracle_checks += 1;
+                        let got = render_with(&tera, "later.txt", &Context::new());
+                        let want = before.iter().find(|l| l.starts_with("render main.txt")).map(|l| l.replace("render main.txt: ok m:", "ok l:")).unwrap_or_default();
+                        if got != want {
+                            report.oracle_failures += 1;
+                            if first.is_none() {
+                                first = Some((format!("after a rejected add ({oname}; {iname}) and a later valid add, `l:{{{{ <K/> }}}}` renders `{got}`, expected `{want}`"), serde_json::json!({"stream": "history", "override": oname, "invalid": iname})));
+                            }
+                        }
+                    }
+                }
+            }
+        }
+    }
+    first
+}
+
 // ------------------------------------------------------------------ recursion (child process)
 
 #[derive(Clone, Debug)]
@@ -1097,12 +1220,12 @@ fn api_equiv(rng: &mut Rng, n: usize, report: &mut Report) -> Option<(String, se
         let def = Def { params, rest: if rng.chance(1, 2) { Some("rest".into()) } else { None } };
         let with_body = rng.chance(1, 2);
         let ae = rng.chance(1, 2);
-        let body_text = "<u>body & text</u>";
+        let body_text = ["<u>body & text</u>", "", " ", "\n", "x"][k % 5];
         let sfx = if ae { ".html" } else { ".txt" };
         // the defining template's own suffix must not matter: the caller's mode / the API flag decides,
         // also for a nested component and (through the carried override) for an include
         let def_sfx = if rng.chance(1, 2) { ".html" } else { ".txt" };
-        let comp_body = format!("{{% for k, v in __tera_context %}}{{{{ k }}}}={{{{ v }}}};{{% endfor %}}|{{{{ a | default(value=\"-\") }}}}|{{{{ <nested v={{a | default(value=\"<n>\")}}/> }}}}|{{% include \"apiinc{sfx}\" %}}");
+        let comp_body = format!("{{% for k, v in __tera_context %}}{{{{ k }}}}={{{{ v }}}};{{% endfor %}}|{{% if body is defined %}}B[{{{{ body }}}}]{{% else %}}NB{{% endif %}}|{{{{ a | default(value=\"-\") }}}}|{{{{ <nested v={{a | default(value=\"<n>\")}}/> }}}}|{{% include \"apiinc{sfx}\" %}}");
         let comp_body = comp_body.as_str();
         let mut tera = new_tera();
         let call = if with_body { format!("{{% <comp {{...kw}}> %}}{body_text}{{% </comp> %}}") } else { "{{ <comp {...kw}/> }}".to_string() };
@@ -1192,6 +1315,7 @@ fn main() {
                 match other {
                     "isolation" => println!("{:?}", isolation(&mut rng, 2000).1),
                     "escaping" => println!("{:?}", escaping(&mut report)),
+                    "history" => println!("{:?}", history_stream(&mut report)),
                     "nested" => println!("{:?}", nested_capture_stream(&mut report, 3)),
                     "boundary" => println!("{:?}", boundary_stream(&mut report)),
                     "api" => println!("{:?}", api_equiv(&mut rng, 5000, &mut report)),
@@ -1381,6 +1505,11 @@ fn main() {
     // ---- stream E
     if let Some((msg, r)) = escaping(&mut report) {
         report.oracle_failures += 1;
+        report.violation("property", msg, r);
+    }
+
+    // ---- stream H: the registry after a rejected add equals the one before
+    if let Some((msg, r)) = history_stream(&mut report) {
         report.violation("property", msg, r);
     }
 
